@@ -69,6 +69,33 @@ func bigBatch(r *rand.Rand, id int, seed int64, n int) *Batch {
 	return b
 }
 
+// sharedProofBatch: n invocations of one invoker that all cite the SAME delegation by link; the server's proof resolver
+// hands every one of them the same delegation object (a cache would), which has many capabilities
+func sharedProofBatch(r *rand.Rand, id int, seed int64, n int) *Batch {
+	cast := newCast(seed*40503 + int64(id))
+	service := cast.Ed("service")
+	cw := &World{ID: id, Kind: "shared-proof", Cast: cast, Can: "store/add", Ctx: baseCtx(service)}
+	b := &Batch{ID: id, W: cw, Handlers: map[string]string{"store/add": "ok", "store/list": "ok"}}
+	far := 4000000000
+	owner, invoker := cast.Ed("p0"), cast.Ed("p1")
+	with := owner.DID.String()
+	shared := &TokSpec{Name: "sharedproof", Issuer: owner, Audience: invoker, Exp: &far, Nonce: "shared"}
+	for k := 0; k < 150; k++ {
+		shared.Caps = append(shared.Caps, CapSpec{Can: fmt.Sprintf("other/thing%d", k), With: with, Nb: Cav{}})
+	}
+	shared.Caps = append(shared.Caps, CapSpec{Can: "store/*", With: with, Nb: Cav{}})
+	cw.Specs = append(cw.Specs, shared)
+	cw.Ctx.Resolvable["sharedproof"] = true
+	for i := 0; i < n; i++ {
+		name := fmt.Sprintf("i%d_inv", i)
+		cw.Specs = append(cw.Specs, &TokSpec{Name: name, Issuer: invoker, Audience: service, Exp: &far, Nonce: fmt.Sprintf("n%d", i),
+			Caps:   []CapSpec{{Can: []string{"store/add", "store/list"}[i%2], With: with, Nb: Cav{}}},
+			Proofs: []ProofRef{{Tok: "sharedproof", Inline: false}}})
+		b.Invs = append(b.Invs, name)
+	}
+	return b
+}
+
 func init() {
 	gens["C09"] = func(o genOpts) error {
 		nb, nconc := 60, 12
@@ -96,8 +123,18 @@ func init() {
 				n = r.Intn(20)
 			}
 			b := bigBatch(r, id, o.seed, n)
-			if n > 1 && r.Intn(4) == 0 {
+			if i%10 == 9 {
+				b = sharedProofBatch(r, id, o.seed, 8+r.Intn(8))
+			}
+			if n > 1 && i%10 != 9 && r.Intn(4) == 0 {
 				b.Invs = append(b.Invs, b.Invs[r.Intn(len(b.Invs))]) // the same invocation listed twice
+			}
+			if i%7 == 5 && len(b.Invs) > 0 {
+				// an execute-list entry whose block is DAG-CBOR but not a UCAN, among well-formed invocations
+				name := fmt.Sprintf("notucan%d", i)
+				b.W.Specs = append(b.W.Specs, &TokSpec{Name: name, NotUCAN: true})
+				at := r.Intn(len(b.Invs) + 1)
+				b.Invs = append(b.Invs[:at], append([]string{name}, b.Invs[at:]...)...)
 			}
 			b.Perturb = r.Int63()
 			if err := b.W.Build(); err != nil {
